@@ -1,29 +1,66 @@
 (* C14, event registrations (M4 of DESIGN.md section 5): a refused allocation inside
    events_immediate_register / events_network_register / events_timer_register.
 
-   PARTIAL.  What is proved: in the model a register call that fails for lack of memory
-   (allocation-oracle value af <> 0 on the operation) returns failure and leaves every structure
-   of the library exactly as it was (for a timer the clock may have been read); and because such
-   calls are ordinary operations of the programs the C04 theorems quantify over, a failed
-   registration is never invoked (no EInvokeBogus, every EInvoke is of a live id) and does not
-   block a later registration (EEXIST only while one is live) - for all programs, schedules and
-   positions of the failures.
-   What is NOT proved here and rests on the correspondence run (areas/events.py,
+   PARTIAL.  How the failing call is modelled.  A register operation carries an oracle value af;
+   af <> 0 means "this call is refused with ENOMEM" and says at which of its allocation points,
+   and exec_op then yields the state that THE UNWINDING OF THE C leaves behind at that point
+   (EventsModel.v):
+     events_immediate_register   nothing was written (err1 frees the eventrec again);
+     events_network_register     net_register_refused: 1 = refused in init() or in events_mkrec
+                                 without growth - nothing written; 2 = in growsocketlist - init()
+                                 has run; 3 = in events_mkrec after growsocketlist succeeded - the
+                                 socket list keeps its new empty records; >= 4 = in growpollfd -
+                                 events_mkrec's record had been stored in *r and err1 takes it out
+                                 again (events_freerec; *r = NULL); EEXIST is tested before the
+                                 allocation, so a refusal never touches an occupied slot;
+     events_timer_register       odd af: refused before the clock is read, even: after it (in
+                                 timerqueue_add); af >= 3: the call had created the timer queue
+                                 (Q = timerqueue_init()) - Q STAYS INITIALISED, which is visible
+                                 later: events_timer_get now reads the clock
+                                 (EventsC14.ex_refused_partial_states).
+   What is proved about these partial states (first theorem): every structure another call can
+   read is as before - immediate queues, the client's handles, the interrupt flag, the timer heap,
+   every reader/writer field, every revents bit and the whole pollfd array - with N1-N5 of
+   events_network.c intact; what may differ is exactly: init() done / trailing empty socket
+   records / an empty timer queue that now exists.  And because these operations are ordinary
+   operations of the programs that ALL C04 and C05 theorems quantify over, every continuation
+   from every such partial state is covered by them: a failed registration is never invoked, does
+   not block a later registration (second theorem), the order / progress / blocking clauses of C05
+   hold afterwards, and no continuation faults (C04_model_never_faults).
+   What this does NOT establish and rests on the correspondence run (areas/events.py,
    check_events_allocfail: k-th / from-k-th allocation of one call refused, immediate retry,
-   per-case process with exit-time accounting of library blocks + LeakSanitizer):
-   which allocation of the C maps to which oracle value (mpool and elastic-array internals are not
-   modelled here), that the retry succeeds (totality of the model's register functions), and the
-   absence of leaks. *)
+   per-case process with exit-time accounting of library blocks + LeakSanitizer): that the C's
+   unwinding is the one modelled - in particular err1's `*r = NULL`, growsocketlist completing
+   before events_mkrec is attempted, the EEXIST test preceding the allocation (seeds C04-e, C14-a,
+   C14-c are caught there, not here); which allocation of the C (mpool and elastic-array internals
+   are not modelled) maps to which oracle value - the run can only observe "ENOMEM, clock read or
+   not" and therefore always replays the model with af = 1 or 2, which is trace-equivalent to the
+   other values as long as the failed call is retried at once (it is: the partial states differ
+   observably only through the timer queue, and the retry creates it anyway); that the retry
+   succeeds; and the absence of leaks. *)
 From Coq Require Import NArith ZArith List.
-From LCP Require Import Base.CheckedMem Events.EventsTrace Events.EventsSpec Events.EventsModel Events.EventsSpecProofs Events.EventsInv Events.EventsC14.
+From LCP Require Import Base.CheckedMem Events.EventsTrace Events.EventsSpec Events.EventsModel Events.EventsNetInv Events.EventsSpecProofs Events.EventsInv Events.EventsC14.
 Import ListNotations.
 
-Theorem C14_events_failed_registration_state_unchanged_partial :
-  forall o s s', failing_reg o = true -> exec_op o s = Ok s' ->
-    s_imm s' = s_imm s /\ s_net s' = s_net s /\ s_tmr s' = s_tmr s /\ s_cl s' = s_cl s /\
-    s_intr s' = s_intr s /\ only_failure_events (s_tr s) (s_tr s') = true.
+(* the state a refused register call leaves behind (for every oracle value, i.e. every point of
+   refusal), from any state whose descriptor tables satisfy N1-N5 (every reachable state does:
+   EventsInv.sm_net / EventsProgress.sh_net).  `field n fd dir` is S[fd].reader / .writer,
+   `rev_at n fd` the revents of fd's pollfd entry, `fds n` the pollfd array. *)
+Theorem C14_events_failed_registration_leaves_partial :
+  forall o s s', failing_reg o = true -> NetInv (s_net s) -> exec_op o s = Ok s' ->
+    s_imm s' = s_imm s /\ s_cl s' = s_cl s /\ s_intr s' = s_intr s /\
+    heap (s_tmr s') = heap (s_tmr s) /\ (tq_inited (s_tmr s) = true -> tq_inited (s_tmr s') = true) /\
+    NetInv (s_net s') /\ (forall f d, field (s_net s') f d = field (s_net s) f d) /\
+    (forall f, rev_at (s_net s') f = rev_at (s_net s) f) /\ fds (s_net s') = fds (s_net s) /\
+    match o with
+    | OImmReg _ _ _ _ => s_net s' = s_net s /\ s_tmr s' = s_tmr s
+    | ONetReg _ _ _ _ => s_tmr s' = s_tmr s
+    | OTimerReg _ _ _ af => s_net s' = s_net s /\ (af <= 2 -> s_tmr s' = s_tmr s)
+    | _ => True
+    end /\
+    only_failure_events (s_tr s) (s_tr s') = true.
 Proof. exact failed_reg_unchanged. Qed.
-Print Assumptions C14_events_failed_registration_state_unchanged_partial.
+Print Assumptions C14_events_failed_registration_leaves_partial.
 
 Theorem C14_events_failed_registration_never_invoked_partial :
   forall p xs pl cl fuel tr,
